@@ -7,6 +7,7 @@ import Model.C17.Golomb
 import Model.C17.Bip158
 import Model.C17.CompactBlocks
 import Model.C17.Block
+import Model.C17.MerkleProof
 import Generated.Pow
 open Btc
 
@@ -84,6 +85,21 @@ def handle : List String → String
     match hashOf hf, fromHex? leaf, hexList? br, parseInt? i with
     | some H, some leaf, some br, some i => renderBranch (Merkle.rootFromBranchBytes H leaf br i)
     | _, _, _, _ => "bad-op"
+  | ["mk.verifyc", hf, leaf, br, i] =>
+    -- merkle_root_from_branch with check_inner_node = _assert_inner_node_is_not_a_tx
+    match hashOf hf, fromHex? leaf, hexList? br, parseInt? i with
+    | some H, some leaf, some br, some i =>
+      renderBranch (Merkle.rootFromBranchBytesChecked H MerkleProof.innerNodeIsTx leaf br i)
+    | _, _, _, _ => "bad-op"
+  | ["mk.proof", txid, br, i, root] =>
+    match fromHex? txid, hexList? br, parseInt? i, fromHex? root with
+    | some txid, some br, some i, some root =>
+      s!"ok {b2s (Merkle.proofVerify hash256 MerkleProof.innerNodeIsTx txid br i root)}"
+    | _, _, _, _ => "bad-op"
+  | ["mk.istx", node] =>
+    match fromHex? node with
+    | some n => s!"ok {b2s (MerkleProof.innerNodeIsTx n)}"
+    | none => "bad-op"
   -- ---------------------------------------------------------------- Golomb-Rice coded sets
   | ["gcs.encode", p, vs] =>
     match p.toNat?, natList? vs with
@@ -138,6 +154,15 @@ def handle : List String → String
             | .prefilled => "P" | .missing => "-" | .pool t => toString t)
         | .error e => s!"err {e.name}"
       | none => "bad-op"
+    | _, _ => "bad-op"
+  | ["cb.fill", part, supplied] =>
+    -- PartialBlock.fill: `part` = wtxid tags or `-` for None
+    let part? := (splitComma part).mapM fun t => if t == "-" then some none else t.toNat?.map some
+    match part?, natList? supplied with
+    | some p, some sup =>
+      match CompactBlocks.fillP p sup with
+      | .ok l => "ok " ++ joinComma (l.map toString)
+      | .error _ => "err count"
     | _, _ => "bad-op"
   | ["cb.key", header, nonce] =>
     -- `CmpctBlock.short_id_key`: sha256(header ‖ nonce LE64), first two LE 64-bit words
